@@ -370,6 +370,15 @@ func arith(op string, a, b *Term) *Term {
 		if bv, ok := b.IntVal(); ok && bv == 0 {
 			return a
 		}
+		// (x + c1) +/- c2  ->  x + (c1 +/- c2)
+		if bv, ok := b.IntVal(); ok && a.Kind == kApp && a.Op == "+" && len(a.Args) == 2 && a.Sort == SInt {
+			if c1, ok := a.Args[1].IntVal(); ok && c1 > -1<<40 && c1 < 1<<40 && bv > -1<<40 && bv < 1<<40 {
+				if op == "+" {
+					return arith("+", a.Args[0], IntLit(c1+bv))
+				}
+				return arith("+", a.Args[0], IntLit(c1-bv))
+			}
+		}
 	}
 	if op == "+" {
 		if av, ok := a.IntVal(); ok && av == 0 {
@@ -784,8 +793,15 @@ func (q *Query) SMTText(produceModels bool) string {
 	for _, s := range sn {
 		b.WriteString("(declare-sort " + s + " 0)\n")
 	}
+	var strs []string
 	for _, c := range sortedKeys(consts) {
 		b.WriteString(fmt.Sprintf("(declare-const %s %s)\n", c, consts[c]))
+		if consts[c] == SStr && strings.HasPrefix(c, "str!") {
+			strs = append(strs, c)
+		}
+	}
+	if len(strs) > 1 {
+		b.WriteString("(assert (distinct " + strings.Join(strs, " ") + "))\n")
 	}
 	un := make([]string, 0, len(ufs))
 	for k := range ufs {
